@@ -17,12 +17,14 @@ use serde_json::json;
 use std::collections::BTreeMap;
 
 #[derive(Clone, Copy, Debug, PartialEq)]
-pub enum Field { PointX, PointY, PointGap, CompOffsetX, CompOffsetY, CompScale, NestedScale, MixedScale, Advance, AdvanceHeight, Kern, AnchorX, AnchorY, Ascender, TypoDescender }
-const FIELDS: &[Field] = &[Field::PointX, Field::PointY, Field::PointGap, Field::CompOffsetX, Field::CompOffsetY, Field::CompScale, Field::NestedScale, Field::MixedScale, Field::NestedScale, Field::MixedScale, Field::Advance, Field::AdvanceHeight, Field::Kern, Field::AnchorX, Field::AnchorY, Field::Ascender, Field::TypoDescender];
+pub enum Field { PointX, PointY, PointGap, ContourGap, CompOffsetX, CompOffsetY, CompScale, NestedScale, MixedScale, Advance, AdvanceHeight, Kern, AnchorX, AnchorY, Ascender, TypoDescender }
+const FIELDS: &[Field] = &[Field::PointX, Field::PointY, Field::PointGap, Field::ContourGap, Field::CompOffsetX, Field::CompOffsetY, Field::CompScale, Field::NestedScale, Field::MixedScale, Field::NestedScale, Field::MixedScale, Field::Advance, Field::AdvanceHeight, Field::Kern, Field::AnchorX, Field::AnchorY, Field::Ascender, Field::TypoDescender];
 const I16_VALUES: &[f64] = &[32766.0, 32767.0, 32768.0, 40000.0, 65535.0, 65536.0, 70000.0, -32767.0, -32768.0, -32769.0, -40000.0, -70000.0, 32767.4, 32767.5, -32768.5, 100000.0];
 const U16_VALUES: &[f64] = &[65534.0, 65535.0, 65536.0, 70000.0, 131072.0, 65535.4, 65535.5, -1.0, -600.0, 40000.0];
 const SCALES: &[f64] = &[1.5, 1.99993896484375, 2.0, 2.00006103515625, -2.0, -2.00006103515625, 2.5, -2.5, 3.0, 100.0];
 const GAPS: &[f64] = &[32767.0, 32768.0, 40000.0, 65534.0];
+// two contours, each one unit wide, whose left edges are this far apart: every step from one contour to the next is within 1 of it
+const CONTOUR_GAPS: &[f64] = &[32760.0, 32766.0, 32769.0, 40000.0, 65532.0];
 
 fn representable(field: Field, v: f64) -> bool {
     let r = ot_round(v);
@@ -32,6 +34,7 @@ fn representable(field: Field, v: f64) -> bool {
         // both end points are in range; their difference is not a stored field in the glyf format's long
         // form... the flag/short-vector encoding stores differences in 16 bits
         Field::PointGap => r <= 32767.0,
+        Field::ContourGap => r + 1.0 <= 32767.0,
         _ => (-32768.0..=32767.0).contains(&r),
     }
 }
@@ -74,18 +77,37 @@ pub fn make_case(g: &mut Gen) -> Case {
         sources[si].kerning = Some(k);
     }
     let mut font = SynthFont { upem: 1000, axes, sources, glyphs: vec![a, b, c, m, part, gd, ge], glyph_order: None, skip_export: vec!["_part".into()], ps_names: None, categories_explicit: true, features: None, instances: vec![], rules: vec![], rules_processing_last: false, lib_filters: vec![] };
+    // a sparse layer source half way along the axis, for the two glyphs with outlines of their own: a location the
+    // font-wide masters do not include
+    let layer = { let c = g.chance(1, 2); variable && c };
+    if layer {
+        font.sources.push(Source { name: "layer_2".into(), ufo: "M0.ufo".into(), layer: Some("L2".into()), norm: vec![0.5], info: Default::default(), kerning: None });
+        for n in ["A", "B"] {
+            let gi = font.glyphs.iter().position(|x| x.name == n).unwrap();
+            let (s0, s1) = (font.glyphs[gi].sources[&0].clone(), font.glyphs[gi].sources[&1].clone());
+            let mut mid = s0.clone();
+            mid.advance = (s0.advance + s1.advance) / 2.0;
+            for (c, (c0, c1)) in mid.contours.iter_mut().zip(s0.contours.iter().zip(&s1.contours)) { for (p, (p0, p1)) in c.pts.iter_mut().zip(c0.pts.iter().zip(&c1.pts)) { p.x = (p0.x + p1.x) / 2.0; p.y = (p0.y + p1.y) / 2.0; } }
+            mid.anchors.clear();
+            font.glyphs[gi].sources.insert(2, mid);
+        }
+    }
     let n_edits = 1 + g.weighted(&[4, 1]);
     let mut edits: Vec<(Field, f64, usize)> = vec![];
     for _ in 0..n_edits {
         let field = *g.pick(FIELDS);
         let si = if variable && g.chance(1, 3) { 1 } else { 0 };
-        let v = match field { Field::Advance | Field::AdvanceHeight => *g.pick(U16_VALUES), Field::CompScale | Field::MixedScale => *g.pick(SCALES), Field::NestedScale => *g.pick(&[1.5, -1.5, 1.25, 2.0, 1.75, -2.0]), Field::PointGap => *g.pick(GAPS), _ => *g.pick(I16_VALUES) };
+        let in_layer = g.chance(1, 2);
+        let si = if layer && in_layer && matches!(field, Field::PointX | Field::PointY | Field::PointGap | Field::ContourGap | Field::Advance) { 2 } else { si };
+        let v = match field { Field::ContourGap => *g.pick(CONTOUR_GAPS), Field::Advance | Field::AdvanceHeight => *g.pick(U16_VALUES), Field::CompScale | Field::MixedScale => *g.pick(SCALES), Field::NestedScale => *g.pick(&[1.5, -1.5, 1.25, 2.0, 1.75, -2.0]), Field::PointGap => *g.pick(GAPS), _ => *g.pick(I16_VALUES) };
         if field == Field::AdvanceHeight && !vertical { continue; }
         if edits.iter().any(|(f, _, _)| *f == field) { continue; }
         // outline and component fields all show in the resolved outlines of the composites of A: one of them per case,
         // so that each read-back has a single cause
         let shape = |f: Field| matches!(f, Field::PointX | Field::PointY | Field::CompOffsetX | Field::CompOffsetY | Field::CompScale | Field::NestedScale | Field::MixedScale);
         if shape(field) && edits.iter().any(|(f, _, _)| shape(*f)) { continue; }
+        let on_b = |f: Field| matches!(f, Field::PointGap | Field::ContourGap);
+        if on_b(field) && edits.iter().any(|(f, _, _)| on_b(*f)) { continue; }
         // the component scale must be the same in every master (a varying 2x2 is decomposed for another reason)
         let targets: Vec<usize> = if matches!(field, Field::CompScale | Field::NestedScale | Field::MixedScale) { (0..n_src).collect() } else { vec![si] };
         for t in targets { apply(&mut font, field, v, t); }
@@ -101,6 +123,8 @@ fn apply(f: &mut SynthFont, field: Field, v: f64, si: usize) {
         Field::PointX => { let i = gl(f, "A"); f.glyphs[i].sources.get_mut(&si).unwrap().contours[0].pts[2].x = v; }
         Field::PointY => { let i = gl(f, "A"); f.glyphs[i].sources.get_mut(&si).unwrap().contours[0].pts[2].y = v; }
         Field::PointGap => { let i = gl(f, "B"); let c = &mut f.glyphs[i].sources.get_mut(&si).unwrap().contours[0]; let lo = -(v / 2.0).floor(); c.pts[0].x = lo; c.pts[3].x = lo; c.pts[1].x = lo + v; c.pts[2].x = lo + v; }
+        // every master needs the second contour; only `si` has it far away
+        Field::ContourGap => { let i = gl(f, "B"); let lo = -(v / 2.0).floor(); let keys: Vec<usize> = f.glyphs[i].sources.keys().copied().collect(); for k in keys { let (x0, x1) = if k == si { (lo, lo + v) } else { (10.0, 200.0) }; let src = f.glyphs[i].sources.get_mut(&k).unwrap(); src.contours = vec![square(x0, 10.0, 1.0), square(x1, 10.0, 1.0)]; } }
         Field::CompOffsetX => { let i = gl(f, "C"); f.glyphs[i].sources.get_mut(&si).unwrap().comps[0].xf[4] = v; }
         Field::CompOffsetY => { let i = gl(f, "C"); f.glyphs[i].sources.get_mut(&si).unwrap().comps[0].xf[5] = v; }
         // each factor fits the 2.14 range; their product may not (1.5 x 1.5 = 2.25)
@@ -121,7 +145,7 @@ fn apply(f: &mut SynthFont, field: Field, v: f64, si: usize) {
 fn model_value(f: &SynthFont, field: Field, si: usize) -> f64 {
     let g = |n: &str| f.glyph(n).unwrap().sources.get(&si).unwrap().clone();
     match field {
-        Field::PointX => g("A").contours[0].pts[2].x, Field::PointY => g("A").contours[0].pts[2].y, Field::PointGap => g("B").contours[0].pts[1].x - g("B").contours[0].pts[0].x,
+        Field::PointX => g("A").contours[0].pts[2].x, Field::PointY => g("A").contours[0].pts[2].y, Field::PointGap => g("B").contours[0].pts[1].x - g("B").contours[0].pts[0].x, Field::ContourGap => g("B").contours[1].pts[0].x - g("B").contours[0].pts[0].x,
         Field::CompOffsetX => g("C").comps[0].xf[4], Field::CompOffsetY => g("C").comps[0].xf[5], Field::CompScale => g("C").comps[0].xf[0], Field::NestedScale => g("_part").comps[0].xf[0], Field::MixedScale => g("E").comps[0].xf[0],
         Field::Advance => g("A").advance, Field::AdvanceHeight => g("A").height.unwrap_or(0.0), Field::Kern => f.sources[si].kerning.as_ref().and_then(|k| k.pairs.get(&("A".to_string(), "B".to_string())).copied()).unwrap_or(0.0),
         Field::AnchorX => g("A").anchors[0].1, Field::AnchorY => g("A").anchors[0].2, Field::Ascender => f.sources[si].info.ascender.unwrap_or(0.0), Field::TypoDescender => f.sources[si].info.metrics.get("openTypeOS2TypoDescender").copied().unwrap_or(0.0),
@@ -135,9 +159,11 @@ fn how(f: &SynthFont, field: Field, v: f64, si: usize, got: f64) -> &'static str
     let (lo, hi) = if matches!(field, Field::Advance | Field::AdvanceHeight) { (0.0, 65535.0) } else { (-32768.0, 32767.0) };
     if want.clamp(lo, hi) != want && (got - want.clamp(lo, hi)).abs() <= 1.0 { return "saturated"; }
     if si > 0 {
-        let d0 = ot_round(model_value(f, field, 0));
-        let delta = want - d0;
-        if delta.clamp(-32768.0, 32767.0) != delta && (got - (d0 + delta.clamp(-32768.0, 32767.0))).abs() <= 1.0 { return "master-delta-saturated"; }
+        // the delta stored for this source is taken against the default's value: with masters at 0, 1/2 and 1 no other master's
+        // region reaches the location of this one
+        let v0 = ot_round(model_value(f, field, 0));
+        let delta = want - v0;
+        if delta.clamp(-32768.0, 32767.0) != delta && (got - (v0 + delta.clamp(-32768.0, 32767.0))).abs() <= 1.0 { return "master-delta-saturated"; }
     }
     "not-carried"
 }
@@ -163,6 +189,7 @@ fn check_value(rep: &mut CaseReport, f: &SynthFont, bytes: &[u8], field: Field, 
                 rep.fail(format!("glyf-coordinate-{}", how(f, field, v, si, got)), format!("{label}: no point of A has {} = {want}; outline {o:?}", if isx { "x" } else { "y" }));
             }
         }
+        Field::ContourGap => { let o = outline("B"); let lo = -(v / 2.0).floor(); if !(has_pt(&o, Some(lo), None) && has_pt(&o, Some(lo + v), None) && has_pt(&o, Some(lo + 1.0), None) && has_pt(&o, Some(lo + v + 1.0), None)) { rep.fail("glyf-step-between-contours-not-carried", format!("{label}: B should have contours at x = {lo} and x = {}; outline {o:?}", lo + v)); } }
         Field::PointGap => { let o = outline("B"); let lo = -(v / 2.0).floor(); if !(has_pt(&o, Some(lo), None) && has_pt(&o, Some(lo + v), None)) { rep.fail("glyf-point-difference-not-carried", format!("{label}: B should span x = {lo} .. {}; outline {o:?}", lo + v)); } }
         Field::CompOffsetX | Field::CompOffsetY | Field::CompScale | Field::NestedScale | Field::MixedScale => {
             let gname = match field { Field::NestedScale => "D", Field::MixedScale => "E", _ => "C" };
@@ -206,7 +233,8 @@ pub fn check(ctx: &Ctx, genome: &[u16]) -> CaseReport {
     let files = ufo::render(f);
     if ctx.dry || case.edits.is_empty() { for (k, v) in files { rep.artifacts.push((k, v.into_bytes())); } rep.discard = case.edits.is_empty(); return rep; }
     rep.nontrivial = case.edits.iter().any(|(fi, v, _)| !representable(*fi, *v));
-    for (fi, v, si) in &case.edits { rep.class(format!("{fi:?}:{}", if representable(*fi, *v) { "in-range" } else { "out-of-range" })); if *si > 0 { rep.class("in-non-default-master"); } }
+    for (fi, v, si) in &case.edits { rep.class(format!("{fi:?}:{}", if representable(*fi, *v) { "in-range" } else { "out-of-range" })); if *si == 1 { rep.class("in-non-default-master"); } if *si == 2 { rep.class("in-sparse-layer-source"); } }
+    if f.sources.len() > 2 { rep.class("has-sparse-layer-source"); }
     let scratch = Scratch::new(&ctx.work);
     let ds = ufo::write_tree(scratch.path(), &files).expect("write tree");
     let mut outcomes = vec![];
@@ -241,5 +269,5 @@ pub fn check(ctx: &Ctx, genome: &[u16]) -> CaseReport {
 pub fn parts() -> Vec<Part> {
     vec![Part { name: "boundaries", genome_len: 40, cases_quick: 1200, cases_thorough: 20000, threads: 14, max_shrink_iters: 60, check: Box::new(check), remote: None }]
 }
-pub const RULE: &str = "a small static or two-master source (simple glyphs, a composite, a mark with anchors, one kerning pair, optional vertical metrics) with one or two numeric fields set to a boundary value: outline x / y, the difference between two consecutive in-range points, component offset x / y, component scale (direct, through a nested non-export part whose factors each fit but whose product does not, and in a glyph that also has an outline, with prefer-simple-glyphs on or off), advance width / height, kerning value, anchor x / y, ascender, typo descender; values at limit-1, limit, limit+1, half-unit neighbours, 2 x limit and their negatives; in the default or the other master. Both fontc binaries (dev profile: overflow checks on; release: off) run as processes: outcomes must agree (both reject with a diagnostic, or both build byte-identical fonts) and a built font must carry every edited value unchanged (own readers: resolved outline, hmtx/vmtx + HVAR/VVAR, kern feature, mark anchors, OS/2 / hhea + MVAR) or, for component scales, draw the same shape. non-trivial = at least one edited field is outside its representable range";
+pub const RULE: &str = "a small static or two-master source (simple glyphs, a composite, a mark with anchors, one kerning pair, optional vertical metrics) with one or two numeric fields set to a boundary value: outline x / y, the difference between two consecutive in-range points, the step between two one-unit-wide contours with every coordinate in range, component offset x / y, component scale (direct, through a nested non-export part whose factors each fit but whose product does not, and in a glyph that also has an outline, with prefer-simple-glyphs on or off), advance width / height, kerning value, anchor x / y, ascender, typo descender; values at limit-1, limit, limit+1, half-unit neighbours, 2 x limit and their negatives; in the default master, the other master, or (outline and advance fields, half of the variable cases) a sparse layer source half way along the axis that only the two outline glyphs have. Both fontc binaries (dev profile: overflow checks on; release: off) run as processes: outcomes must agree (both reject with a diagnostic, or both build byte-identical fonts) and a built font must carry every edited value unchanged (own readers: resolved outline, hmtx/vmtx + HVAR/VVAR, kern feature, mark anchors, OS/2 / hhea + MVAR) or, for component scales, draw the same shape. non-trivial = at least one edited field is outside its representable range";
 pub const ASSUMPTIONS: &[&str] = &["values in a non-default master are compared at that master's location with 1 unit of tolerance (delta rounding); default-master values exactly", "a successive-point difference beyond 16 bits with both end points in range counts as not representable (the statement lists it)", "a main-thread panic is reported by fontc as an error since the C15 repair; a panic in one profile and a font in the other is a disagreement"];
